@@ -1,12 +1,12 @@
 SPECIFICATION Spec
 CONSTANTS
-  Txs <- T3
-  Subm <- S3
+  Txs <- T2
+  Subm <- S2
   Limit = 0
-  MaxBlk = 2
+  MaxBlk = 1
   PushChecked = TRUE
   AtomicAppend = TRUE
-  CacheFirst = TRUE
+  CacheFirst = FALSE
   KeepCommittedInCache = TRUE
 VIEW view
 INVARIANTS NoDuplicates HeldIsCached WithinBounds NoReofferCommitted
